@@ -137,11 +137,25 @@ def run(ctx):
         init = n.child('init').strip()
         arg = init.args[0].strip() if init.is_call and init.args else None
         good = False
-        if arg is not None and arg.k == 'ConditionalOperator':
+        counter_ok = lambda e_: q.member_value_of(e_, SEND_SEQ)
+        if arg is not None and arg.strip(casts=True).is_call and arg.strip(casts=True).callee_qp and arg.strip(casts=True).k != 'CXXMemberCallExpr':
+            # the selection may live in a small helper of the unit that is handed the message and the counter: its single return expression is the selection,
+            # with the counter parameter standing for the argument bound to it
+            ca = arg.strip(casts=True)
+            for h in prog.fns(ca.callee_qp):
+                rr = [x for x in h.all_nodes() if x.k == 'ReturnStmt' and x.children]
+                if h.tu is fn.tu and len(rr) == 1 and len(h.param_ids) == len(ca.args):
+                    bound = [pid for pid, a_ in zip(h.param_ids, ca.args) if q.member_value_of(a_, SEND_SEQ) or q.refers_to_member(a_.strip(casts=True), SEND_SEQ)]
+                    if len(bound) == 1:
+                        ctx.saw(h)
+                        arg = rr[0].children[0].strip()
+                        counter_ok = lambda e_, _b=bound[0]: any(x.k == 'DeclRefExpr' and x.declid == _b for x in e_.walk())
+        if arg is not None and arg.strip(casts=True).k == 'ConditionalOperator':
+            arg = arg.strip(casts=True)
             c, t, e = arg.child('cond'), arg.child('then'), arg.child('else')
             good = (any(x.callee_qp == 'FIX8::Message::get_custom_seqnum' for x in q.calls_in(c)) and
                     any(x.callee_qp == 'FIX8::Message::get_custom_seqnum' for x in q.calls_in(t)) and
-                    q.member_value_of(e, SEND_SEQ))
+                    counter_ok(e))
         ctx.check(good, 'R16.2', S + 'send_process#msgseqnum@%s' % ('assign' if n is news[0] else 'else'), n.loc,
                   'MsgSeqNum is custom_seqnum ? custom_seqnum : _next_send_seq')
 
